@@ -5,9 +5,11 @@ package trace
 // Line kinds (one self-contained case per line; see /verif/lean/Otel/C09/Main.lean):
 //
 //	ratio <gen> f<bits> <nanconv> x<tid> => <decision>
-//	tree  <gen> <S|B> <nanconv> <sampler expr> <none|ctx> <ext tid> <ext sid> <flags> <ts> <remote>
+//	tree  <gen> <A|S|B> <nanconv> <sampler expr> <none|ctx> <ext tid> <ext sid> <flags> <ts> <remote>
 //	      | <pidx> <newroot> <genTid> <genSid> <dec> <ts|P> | ...
-//	      => <tid> <sid> <flags> <ts> <remote> <rec> <T|S> <ansDec> <ansTs> <seenTid> <ptid> <psid> <pflags> <pts> <premote> | ... | exp <sid/tid/ptid/psid> ...
+//	      => <tid> <sid> <flags> <ts> <remote> <rec> <T|S> <ansDec> <ansTs> <seenTid> <ptid> <psid> <pflags> <pts> <premote> | ... | exp:S <sid/tid/ptid/psid> ... | exp:B ... | exp:K ... | exp:Q ... | exp:R ...
+//	      (one exp group per stock processor configuration registered on the provider: simple, batch, batch blocking,
+//	       batch small export batch, batch blocking with queue/batch size 1)
 //	ids   <gen> x<stream> <ops T/S...> => x<id>,x<id>,...
 //	uniq  <gen> <count> => <duplicates> <zero ids>
 //	env   <gen> <x<name>|-> <hasArg> <err|f<bits>> <nanconv> => <sampler struct|-> <errclass>
@@ -169,12 +171,19 @@ func c09RunTree(f []string) string {
 	cur := &c09Script{}
 	seen := &c09Seen{}
 	gen := &c09Gen{}
-	exp := &c09Exporter{}
-	opts := []TracerProviderOption{WithIDGenerator(gen)}
-	if proc == "B" {
-		opts = append(opts, WithBatcher(exp))
-	} else {
-		opts = append(opts, WithSyncer(exp))
+	// EVERY stock span-processor configuration is registered side by side, each with its own in-memory exporter
+	// (the <S|B|A> token of the line is kept for old corpus lines; all configurations are always run):
+	//   exp:S simple; exp:B batch (defaults); exp:K batch WithBlocking(); exp:Q batch with export batches of 2;
+	//   exp:R batch WithBlocking(), queue and batch size 1.
+	_ = proc
+	exps := []*c09Exporter{{}, {}, {}, {}, {}}
+	expTags := []string{"exp:S", "exp:B", "exp:K", "exp:Q", "exp:R"}
+	opts := []TracerProviderOption{WithIDGenerator(gen),
+		WithSpanProcessor(NewSimpleSpanProcessor(exps[0])),
+		WithSpanProcessor(NewBatchSpanProcessor(exps[1])),
+		WithSpanProcessor(NewBatchSpanProcessor(exps[2], WithBlocking())),
+		WithSpanProcessor(NewBatchSpanProcessor(exps[3], WithMaxExportBatchSize(2))),
+		WithSpanProcessor(NewBatchSpanProcessor(exps[4], WithBlocking(), WithMaxQueueSize(1), WithMaxExportBatchSize(1))),
 	}
 	var tp *TracerProvider
 	if samp == "D" {
@@ -256,16 +265,20 @@ func c09RunTree(f []string) string {
 	for i := len(spans) - 1; i >= 0; i-- {
 		spans[i].End()
 	}
+	// flush every processor before observing, then shut the provider down (stops the batch workers)
+	_ = tp.ForceFlush(context.Background())
 	_ = tp.Shutdown(context.Background())
-	exp.mu.Lock()
-	es := []string{"exp"}
-	for _, s := range exp.spans {
-		sc, p := s.SpanContext(), s.Parent()
-		sid, tid, ptid, psid := sc.SpanID(), sc.TraceID(), p.TraceID(), p.SpanID()
-		es = append(es, fmt.Sprintf("%s/%s/%s/%s", vHexB(sid[:]), vHexB(tid[:]), vHexB(ptid[:]), vHexB(psid[:])))
+	for k, exp := range exps {
+		exp.mu.Lock()
+		es := []string{expTags[k]}
+		for _, s := range exp.spans {
+			sc, p := s.SpanContext(), s.Parent()
+			sid, tid, ptid, psid := sc.SpanID(), sc.TraceID(), p.TraceID(), p.SpanID()
+			es = append(es, fmt.Sprintf("%s/%s/%s/%s", vHexB(sid[:]), vHexB(tid[:]), vHexB(ptid[:]), vHexB(psid[:])))
+		}
+		exp.mu.Unlock()
+		out = append(out, strings.Join(es, " "))
 	}
-	exp.mu.Unlock()
-	out = append(out, strings.Join(es, " "))
 	return strings.Join(out, " | ")
 }
 
@@ -682,10 +695,7 @@ func c09RandSampler(r *vRand, depth int) string {
 }
 
 func c09GenTree(r *vRand, nanc uint64) (string, []string) {
-	proc := "S"
-	if r.Intn(8) == 0 {
-		proc = "B"
-	}
+	proc := "A" // all stock processor configurations side by side
 	samp := c09RandSampler(r, 0)
 	f := []string{proc, strconv.FormatUint(nanc, 10), samp}
 	gen := "ext-none"
